@@ -172,6 +172,8 @@ class Ctx:
                 for t in thms:
                     self.theorem_status[t] = "ok"
                 self._audit(thms, mods)
+                if self.tier == "thorough" and mods:
+                    self._leanchecker(mods)
         self._grep_forbidden()
         for t, st in self.theorem_status.items():
             if st != "ok":
@@ -237,6 +239,16 @@ class Ctx:
             bad = [a for a in seen[t] if a not in ALLOWED_AXIOMS]
             if bad:
                 self.theorem_status[t] = f"uses disallowed axioms {bad}"
+
+    def _leanchecker(self, mods):
+        """thorough tier: the toolchain's independent re-checker replays the compiled declarations of the property's
+        theorem modules (and everything they import from this project) through the kernel"""
+        t0 = time.time()
+        rc, out = sh(["lake", "env", "leanchecker"] + list(mods), cwd=LEAN, timeout=3000)
+        self.extra["leanchecker"] = {"modules": list(mods), "rc": rc, "seconds": round(time.time() - t0, 1),
+                                     "output_tail": out[-300:]}
+        if rc != 0:
+            self.broken.append("leanchecker rejects the compiled theorem modules: " + out[-300:].replace("\n", " | "))
 
     def _grep_forbidden(self):
         hits = []
